@@ -23,6 +23,9 @@ CHECKS['C02'] = ('property-based testing: generated model x recipe, graph-skelet
 CHECKS['C03'] = ('property-based testing: per-operand dtype/constant oracle from a reference resolver + mode table',
   PIPE + 'for every operand of every original operator the dtype seen by the operator (and, for untouched operands, the constant bytes) is compared with what the reference resolution (last-applicable-rule) and the mode table (none / weight-only / fp16 / dynamic-range / static-range) predict; inserted Q/DQ ops must convert between quantized and float types.',
   'Operand roles come from an independently written op table; recipes with skip_checks are excluded; the support predicate is the library\'s.', 'DESIGN.md 4 C03')
+CHECKS['C08'] = ('property-based testing: shipped recipes x generated graphs with all interaction features, totality oracle (no exception)',
+  'The six shipped recipes, loaded unchanged (calibrated when they need it), are applied to generated float models with shared inputs, concatenations of shared tensors, squares, unsupported ops in between, exported intermediates, re-used and de-duplicated constants; any exception from calibrate()/quantize() is a violation. One open known finding (a constant needed with different parameters is rejected) is matched structurally and counted.',
+  'Input domain: converter normal form with model-wide unique names; generated graphs of <= 8 (quick) / 12 (thorough) nodes.', 'DESIGN.md 4 C08')
 NOT_APPLICABLE = {}
 
 def main():
